@@ -656,3 +656,48 @@ Qed.
 
 Lemma nth_res_repeat : forall A (x : A) n j a, nth_res (repeat x n) j = Ok a -> a = x.
 Proof. intros A x n j a H. apply nth_res_in in H. apply repeat_spec in H. auto. Qed.
+
+(* ---------- more list lemmas ---------- *)
+Lemma skipn_nth_error : forall A (l : list A) p a, nth_error l p = Some a -> skipn p l = a :: skipn (S p) l.
+Proof.
+  induction l as [|x l IH]; intros p a H; [destruct p; discriminate|].
+  destruct p as [|p]; cbn [nth_error] in H.
+  - inversion H; subst. reflexivity.
+  - cbn [skipn]. rewrite (IH p a H). reflexivity.
+Qed.
+
+Lemma skipn_set_nth : forall A (l : list A) p q x, (p < q)%nat -> skipn q (set_nth l p x) = skipn q l.
+Proof.
+  induction l as [|y l IH]; intros p q x H.
+  - destruct p; reflexivity.
+  - destruct q as [|q]; [lia|]. destruct p as [|p]; cbn [set_nth skipn]; auto. apply IH. lia.
+Qed.
+
+Definition lvl (L : list (list item)) (p : nat) : list item := nth p L [].
+
+Lemma look_nil_ext : forall B k, (forall p, level_lookup (lvl B p) k = None) -> look_levels B k = None.
+Proof.
+  induction B as [|b B IH]; intros k H; [reflexivity|].
+  cbn [look_levels]. pose proof (H 0%nat) as H0. unfold lvl in H0; cbn [nth] in H0. rewrite H0.
+  apply IH. intros p. apply (H (S p)).
+Qed.
+
+Lemma look_ext : forall A B k, (forall p, level_lookup (lvl A p) k = level_lookup (lvl B p) k) ->
+  look_levels A k = look_levels B k.
+Proof.
+  induction A as [|a A IH]; intros B k H.
+  - symmetry. apply look_nil_ext. intros p. rewrite <- H. unfold lvl. destruct p; reflexivity.
+  - destruct B as [|b B].
+    + apply look_nil_ext. intros p. rewrite H. unfold lvl. destruct p; reflexivity.
+    + cbn [look_levels]. pose proof (H 0%nat) as H0. unfold lvl in H0; cbn [nth] in H0. rewrite H0.
+      rewrite (IH B k); auto. intros p. apply (H (S p)).
+Qed.
+
+Lemma nth_res_lvl : forall (L : list (list item)) p,
+  lvl L p = match nth_res L (Z.of_nat p) with Ok l => l | Err _ => [] end.
+Proof.
+  intros L p. unfold lvl, nth_res. assert (E : (Z.of_nat p <? 0) = false) by lia. rewrite E.
+  rewrite Nat2Z.id. destruct (nth_error L p) eqn:En.
+  - apply nth_error_nth; auto.
+  - apply nth_overflow. apply nth_error_None; auto.
+Qed.
